@@ -31,6 +31,37 @@ pub enum Term {
 }
 
 impl Term {
+    /// a parameter used as a map key can only be given an integer or a string: any other
+    /// value cannot be substituted and would be left in place
+    pub(super) fn check_map_key_parameters(
+        &self,
+        parameters: &HashMap<String, Option<Term>>,
+    ) -> Result<(), error::Token> {
+        match self {
+            Term::Set(s) => s
+                .iter()
+                .try_for_each(|term| term.check_map_key_parameters(parameters)),
+            Term::Array(a) => a
+                .iter()
+                .try_for_each(|term| term.check_map_key_parameters(parameters)),
+            Term::Map(m) => m.iter().try_for_each(|(key, term)| {
+                if let MapKey::Parameter(name) = key {
+                    match parameters.get(name) {
+                        Some(Some(Term::Integer(_))) | Some(Some(Term::Str(_))) | Some(None) | None => {}
+                        Some(Some(value)) => {
+                            return Err(error::Token::ConversionError(format!(
+                                "parameter {} is used as a map key: expected an integer or a string, got {:?}",
+                                name, value
+                            )))
+                        }
+                    }
+                }
+                term.check_map_key_parameters(parameters)
+            }),
+            _ => Ok(()),
+        }
+    }
+
     pub(super) fn extract_parameters(&self, parameters: &mut HashMap<String, Option<Term>>) {
         match self {
             Term::Parameter(name) => {
